@@ -95,7 +95,12 @@ func (p *postprocessor) worker(workerID string) {
 		case <-controlChans.PauseCh:
 			verifhook.At("post.pause.ack", workerID)
 			logger.Debug("received pause event")
-			controlChans.ResumeCh <- struct{}{}
+			select {
+			case controlChans.ResumeCh <- struct{}{}:
+			case <-p.ctx.Done():
+				logger.Debug("shutting down while paused")
+				return
+			}
 			verifhook.At("post.resumed", workerID)
 			logger.Debug("received resume event")
 		case seed, ok := <-p.inputCh:
